@@ -40,6 +40,7 @@ type cliCase struct {
 	LogFile   int        `json:"log_file"`     // concat -l: 0 none, 1 a new file, 2 an existing file
 	StaleOut  bool       `json:"stale_out"`    // split / extract: the output files exist already
 	GFF       bool       `json:"gff"`          // extract: the blocks are given as a GFF3 annotation (--gff)
+	Translate bool       `json:"translate"`    // extract --translate 0 (standard code)
 	Start     int        `json:"start"`
 	Len       int        `json:"len"`
 	Step      int        `json:"step"`
@@ -188,13 +189,34 @@ func genCLI(t *rapid.T, cmds []string) cliCase {
 			c.Ref = genRefName(t, c.Ali)
 			bound = refLen(c.Ali, c.Ref)
 		}
+		c.Translate = uni(t, 4, "translate") == 0
+		codons := false
+		if c.Translate && c.Ali.Alphabet == "nt" {
+			// translation is judged on gap-free upper-case ACGT rows and blocks of whole codons, where every
+			// reading of the translation rules agrees (the rest is C05's subject)
+			n := len(c.Ali.Rows)
+			l = rapid.IntRange(3, 24).Draw(t, "Lcodons")
+			c.Ali = gen.Ali{Alphabet: "nt"}
+			for i := 0; i < n; i++ {
+				c.Ali.Rows = append(c.Ali.Rows, gen.Row{Name: fmt.Sprintf("s%d", i), Seq: gen.SeqN(t, ntPlain, l)})
+			}
+			if c.Cmd == "extract-ref" {
+				c.Ref = c.Ali.Rows[uni(t, n, "tref")].Name
+			}
+			bound = l
+			codons = true
+			strandMinus = true
+		}
 		nlines := rapid.IntRange(1, 3).Draw(t, "lines")
 		for i := 0; i < nlines; i++ {
 			b := block{Name: fmt.Sprintf("orf%d", i)}
 			nb := rapid.IntRange(1, 3).Draw(t, "blocks")
 			for j := 0; j < nb; j++ {
 				var s, e int
-				if bound > 0 && uni(t, 6, "valid") != 0 {
+				if codons {
+					s = rapid.IntRange(0, bound-3).Draw(t, "cs")
+					e = s + 3*rapid.IntRange(1, (bound-s)/3).Draw(t, "ncodons")
+				} else if bound > 0 && uni(t, 6, "valid") != 0 {
 					s = rapid.IntRange(0, bound-1).Draw(t, "s")
 					e = rapid.IntRange(s+1, bound).Draw(t, "e")
 					if rapid.IntRange(0, 3).Draw(t, "toend") == 0 {
@@ -725,6 +747,10 @@ func checkCLI(dir string, c cliCase) (o pbt.Outcome, err error) {
 			if c.GFF {
 				args = append(args, "--gff")
 			}
+			if c.Translate {
+				// the alphabet is given: a short protein row made of A, C, G, T, R, N ... would be detected as nucleotides
+				args = append(args, "--translate", "0", "--alphabet", c.Ali.Alphabet)
+			}
 			ref, known := rowByName(rows, c.Ref)
 			p := nonGap(ref.Seq)
 			if c.Cmd == "extract-ref" {
@@ -761,6 +787,12 @@ func checkCLI(dir string, c cliCase) (o pbt.Outcome, err error) {
 						sub[i].Seq = complementACGT(sub[i].Seq)
 					}
 				}
+				if c.Translate && c.Ali.Alphabet == "nt" {
+					// "extracted subsequences are translated into amino acids" (only if the input is nucleotide)
+					for i := range sub {
+						sub[i].Seq = translateStd(sub[i].Seq)
+					}
+				}
 				exp.Files[b.Name+".fa"] = sub
 			}
 			if exp.Err {
@@ -768,6 +800,9 @@ func checkCLI(dir string, c cliCase) (o pbt.Outcome, err error) {
 				o.Class("%s:refused", c.Cmd)
 			} else {
 				o.Class("%s:valid", c.Cmd)
+				if c.Translate {
+					o.Class("%s:valid --translate on %s input", c.Cmd, c.Ali.Alphabet)
+				}
 				if multi {
 					o.Class("%s:valid-several-blocks", c.Cmd)
 				}
@@ -1105,6 +1140,21 @@ func checkCLI(dir string, c cliCase) (o pbt.Outcome, err error) {
 		return o, fmt.Errorf("%s: %d unexpected extra rows in the output: %s", show(), len(got)-pos, gen.Show(got[pos:]))
 	}
 	return o, nil
+}
+
+// translateStd translates whole upper-case ACGT codons with the standard genetic code (NCBI table 1 in
+// its compact form, bases in the order TCAG)
+func translateStd(nt string) string {
+	const aas = "FFLLSSSSYY**CC*WLLLLPPPPHHQQRRRRIIIMTTTTNNKKSSRRVVVVAAAADDEEGGGG"
+	var out []byte
+	for i := 0; i+3 <= len(nt); i += 3 {
+		k := 0
+		for j := 0; j < 3; j++ {
+			k = k*4 + strings.IndexByte("TCAG", nt[i+j])
+		}
+		out = append(out, aas[k])
+	}
+	return string(out)
 }
 
 func mustFailAny(exps []expect) bool {
